@@ -34,7 +34,7 @@ def gates(tier):
         "min_decided": {"A.counterexample(B)": 1500 * k, "A == B": 1500 * k, "A.min.dim": 1500 * k, "A.min(xs)": 10000 * k},
         "shapes": {c: 5 * k for c in ["pair:equivalent", "pair:different", "eq:rename", "eq:useless", "eq:split", "eq:zero-union",
                                       "eq:epsremoved", "neg_weight", "eps_arc", "empty_language", "no_final", "no_initial",
-                                      "fractional", "rank<dim", "eq:useless-newsymbol"]},
+                                      "fractional", "rank<dim", "eq:useless-newsymbol", "scale:big-automaton"]},
         "min_events": {"min.proj_calls": 2000 * k},
         "min_hashseeds": 2,
     }
@@ -44,7 +44,13 @@ def gen_case(rng, spec):
     from rv.gen import automata as GA
 
     # tiny=False: "well-conditioned weights" - the floating-point tests use absolute tolerances around 1e-8
-    m = GA.gen_wfsa(rng, max_states=5, alphabet=["a", "b"][: rng.randint(1, 2)], max_arcs=8, names=None, tiny=False)
+    if rng.random() < 0.05:
+        # scale: 8-14 states (two-digit state indices), three symbols, a state with many arcs, 3+ initial / final states
+        m = GA.gen_big_wfsa(rng, alphabet=["a", "b", "c"])
+        m.pop("big")
+        m["scale"] = True
+    else:
+        m = GA.gen_wfsa(rng, max_states=5, alphabet=["a", "b"][: rng.randint(1, 2)], max_arcs=8, names=None, tiny=False)
     m["names"] = list(range(m["n"]))
     r = rng.random()
     if r < 0.15:
@@ -208,6 +214,8 @@ def run_case(case, ctx):
         cls.add("fractional")
     if rank < A["n"]:
         cls.add("rank<dim")
+    if A.get("scale"):
+        cls.add("scale:big-automaton")
     cls.add("pair:equivalent" if equivalent else "pair:different")
     if equivalent:
         cls.add(f"eq:{case['how']}")
